@@ -44,7 +44,7 @@ def shards(tier):
 def required_counters(tier):
     return {'judged:inputs-unchanged': 1000, 'judged:deterministic': 1000, 'judged:fresh-interpreter': 20, 'judged:module-state-unchanged': 1000,
             'judged:parse-independent-of-previous-parse': 50, 'op:serialize': 50, 'op:write': 20, 'op:parse': 50, 'op:to_mask': 50,
-            'op:contains': 50, 'op:to_sky': 20, 'op:rotate': 20, 'op:as_artist': 20}
+            'op:contains': 50, 'op:to_sky': 20, 'op:rotate': 20, 'op:as_artist': 20, 'op:mask-apply': 20}
 
 
 PIX_CLASSES = gen.ALL_PIX
@@ -115,6 +115,13 @@ class Pool:
         self.skycoords = [self.wcs.pixel_to_world(self.coords[0].x, self.coords[0].y), self.wcs.pixel_to_world(self.coords[1].x, self.coords[1].y)]
         self.lists = [Regions(list(self.pix[:5])), Regions(list(self.sky[:3])), Regions([self.pix[0], self.sky[0], self.pix[3]]),
                       Regions(list(self.pix))]
+        self.masks = []
+        for r in self.pix[:8]:
+            try:
+                self.masks.append(r.to_mask(mode='center'))
+            except NotImplementedError:
+                pass
+        self.datamasks = [nrng.random(self.images[0].shape) < 0.3, nrng.random(self.images[1].shape) < 0.3]
         self.texts = {}          # format -> serialised text/table available for parse ops
         self.files = {}
 
@@ -132,6 +139,10 @@ class Pool:
             d[f'skycoord[{i}]'] = c
         for i, l in enumerate(self.lists):
             d[f'list[{i}]'] = l
+        for i, m in enumerate(self.masks):
+            d[f'mask[{i}]'] = m
+        for i, m in enumerate(self.datamasks):
+            d[f'datamask[{i}]'] = m
         return d
 
     def fingerprints(self):
@@ -343,6 +354,12 @@ def do_op(pool, op):
             n = len(lst)
             return name, (lst[0:n // 2].regions, lst.copy().regions, len(lst), lst[n - 1] if n else None)
         if name == 'mask-apply':
+            if op['k'] % 2 and pool.masks:
+                # a long-lived RegionMask applied again and again (with and without a data mask)
+                m = pool.masks[op['i'] % len(pool.masks)]
+                jj = op['j'] % 2
+                img, dm = pool.images[jj], (pool.datamasks[jj] if op['k'] % 3 else None)
+                return name, (m.get_values(img, mask=dm), m.multiply(img), m.get_values(img), m.cutout(img), m.to_image(img.shape))
             try:
                 m = pix.to_mask(mode='center')
             except NotImplementedError as e:
